@@ -67,7 +67,7 @@ c.assumptions.append('a singleton constructor does not itself touch _SINGLETONS 
 
 
 def _calls(x):
-  return [e for e in x.trace if 'fn' in e]
+  return [e for e in x.trace if 'fn' in e]   # opaque (constructor) calls only
 
 
 def _cached(x):
